@@ -71,6 +71,11 @@ def check_goal(hyps, goal, timeout_ms, use_cvc5=True, want_model=True):
     t0 = time.time()
     quant = has_quant(hyps, goal)
     if quant:
+        qf = [h for h in hyps if not has_quant([h], z3.BoolVal(True))]
+        if len(qf) < len(hyps):
+            s0 = _mk(qf, goal, min(3000, timeout_ms // 4), True)
+            if s0.check() == z3.unsat:
+                return 'proved', 'z3-qf-hyps', None, time.time() - t0
         s1 = _mk(hyps, goal, max(1000, timeout_ms // 3), True)
         if s1.check() == z3.unsat:
             return 'proved', 'z3-ematch', None, time.time() - t0
